@@ -95,9 +95,36 @@ fn build_pool(seed: u64) -> Vec<(Value, Value)> {
     let q2 = shorts[(seed as usize + 1 + (seed as usize / 8) % 6) % shorts.len()];
     pool.push((paired.clone(), json!({"q": q1, "r": q2})));
     pool.push((paired, json!({"q": q2, "r": q1})));
-    let rule = gen::rule(&mut rng, 2);
-    let data = doc(&mut rng);
-    pool.push((rule, data));
+    // one operator, two callers' worth of operands (the operator comes round with the workload seed):
+    // whatever a leaf keeps across calls is written with one set of values and read with the other
+    const OPS: &[&str] = &[
+        "==", "!=", "===", "!==", "!", "!!", "<", "<=", ">", ">=", "+", "-", "*", "/", "%", "max", "min", "merge", "in", "cat", "substr", "log", "var", "missing",
+        "missing_some", "if", "?:", "or", "and", "map", "filter", "reduce", "all", "some", "none",
+    ];
+    let op = OPS[(seed as usize) % OPS.len()];
+    let words = ["apple", "pear", "é", "ab", "kiwi", "x.y", "b", "plum"];
+    let use_words = (seed / OPS.len() as u64) % 2 == 1;
+    let val = |i: usize| -> Value { if use_words { json!(words[i % words.len()]) } else { json!(shorts[i % shorts.len()]) } };
+    let base = (seed as usize / 3) % 8;
+    for side in 0..2usize {
+        let v0 = val(base + side * 3);
+        let v1 = val(base + side * 3 + 1);
+        let r = match op {
+            "var" => json!({"cat": [{"var": if side == 0 { "o.x" } else { "p.y" }}, "/", {"var": if side == 0 { "c.1" } else { "c.2" }}]}),
+            "missing" => json!({"missing": [if side == 0 { "o.x" } else { "p.z" }, "zz", "a"]}),
+            "missing_some" => json!({"missing_some": [1, [if side == 0 { "o.x" } else { "p.z" }, "zz"]]}),
+            "map" | "filter" | "all" | "some" | "none" => json!({ op: [[v0.clone(), v1.clone(), v0.clone()], {"in": [{"var": ""}, [v0.clone()]]}] }),
+            "reduce" => json!({"reduce": [[v0.clone(), v1.clone(), v0.clone()], {"cat": [{"var": "accumulator"}, {"var": "current"}]}, ""]}),
+            "if" | "?:" => json!({ op: [v0.clone(), v1.clone(), v0.clone()] }),
+            "substr" => json!({"substr": [v0.clone(), 1, 2]}),
+            "in" => json!({"in": [v0.clone(), [v1.clone(), v0.clone()]]}),
+            "merge" => json!({"merge": [[v0.clone(), v1.clone()], v0.clone()]}),
+            "!" | "!!" | "log" => json!({ op: [v0.clone()] }),
+            "-" | "/" | "%" => json!({ op: [v0.clone(), v1.clone()] }),
+            _ => json!({ op: [v0.clone(), v1.clone(), v0.clone()] }),
+        };
+        pool.push((r, doc(&mut rng)));
+    }
     pool
 }
 
